@@ -35,6 +35,15 @@ def _types():
         T0 = type("T0", (), {})
         T1 = type("T1", (T0,), {})
         T2 = type("T2", (), {})
+
+        def _no_text(self):
+            # a hardware wrapper that cannot describe itself (only while the library's start-up code runs: the harness's own
+            # messages may print it)
+            if STATE.get("strict_repr"):
+                raise RuntimeError("vf: this object cannot be printed")
+            return f"<T3 at {id(self):#x}>"
+        T3 = type("T3", (T2,), {"__repr__": _no_text, "__str__": _no_text})
+        TYPES["T3"] = T3
         import functools
         CallT = type("CallT", (), {"__call__": lambda self: 1})       # an object that happens to be callable
         TYPES.update({"CallT": CallT, "partial": functools.partial, "type": type})
@@ -84,7 +93,7 @@ def make_value(desc):
 
 
 GOOD = {  # annotation -> value descriptors that satisfy it
-    "T0": [("inst", "T0"), ("inst", "T1"), ("mock", "T0")], "T1": [("inst", "T1")], "T2": [("inst", "T2"), ("mock", "T2")],
+    "T0": [("inst", "T0"), ("inst", "T1"), ("mock", "T0")], "T1": [("inst", "T1")], "T2": [("inst", "T2"), ("mock", "T2"), ("inst", "T3")],
     "Proto": [("inst", "HasSpin")],
     "List": [("list", [1]), ("list", [])], "Dict": [("dict", {"a": 1})], "Tuple": [("tuple", [1, 2])],
     "int": [("lit", 5), ("lit", 0), ("lit", True), ("lit", -3)], "str": [("lit", "x"), ("lit", "")],
@@ -501,10 +510,13 @@ def run_case(acc, case):
             acc.ev("fms-attached-at-startup")
         robot = R1()
         STATE["robot"] = robot
+        STATE["strict_repr"] = True
         try:
             robot.robotInit()
         except Exception as e:  # noqa
             exc = e
+        finally:
+            STATE["strict_repr"] = False
         # ---- expectation
         injectables_attr = dict(robot_objs)
         expected = {}
